@@ -182,11 +182,15 @@ def prop_key(n):
     return None
 
 
-def clamp_table(stmts, var_decl, floating):
+def clamp_table(stmts, var_decl, floating, storage_ct=None):
     """Evaluate the clamp statements over test values for the four presence configurations of min/max.
     -> {config: {v: result}}"""
     LO, HI = (2, 100)
-    vals = [0, 1, 2, 3, 50, 99, 100, 101, 120] if not floating else [0.5, 1.5, 2.0, 2.5, 50.25, 100.0, 100.5, 120.0]
+    vals = [-3, -1, 0, 1, 2, 3, 50, 99, 100, 101, 120] if not floating else [-3.5, 0.5, 1.5, 2.0, 2.5, 50.25, 100.0, 100.5, 120.0]
+    vct = FD.ctype(A.qtype(var_decl))
+    if storage_ct is not None and storage_ct[0] == "int":
+        # only incoming values that the parameter's storage type can represent are in the property's scope
+        vals = [v for v in vals if FD.wrap(v, storage_ct) == v]
     out = {}
     for has_min in (True, False):
         for has_max in (True, False):
@@ -210,7 +214,8 @@ def clamp_table(stmts, var_decl, floating):
                     if name in ("atoi", "atof", "atol") and args and args[0] == 0:
                         return -999983      # converter applied to an absent key (NULL): shows up as a mismatch
                     raise FD.Unknown("call to %s in clamp" % name, n)
-                ev = FD.Eval(env={var_decl["id"]: v}, call=call, node_hook=hook)
+                # the incoming value arrives in the variable converted to the variable's own type
+                ev = FD.Eval(env={var_decl["id"]: FD.wrap(v, vct) if vct[0] == "int" else v}, call=call, node_hook=hook)
                 for s in stmts:
                     ev.run(s)
                 res[v] = ev.env[var_decl["id"]]
